@@ -116,6 +116,25 @@ async fn serve_metrics<IB: Body>(_req: Request<IB>) -> Result<Response<Full<Byte
         .unwrap())
 }
 
+/* Rust's {:?} escapes are not JSON's (eg \u{1}, \'), so do it by hand. */
+fn json_string(s: &str) -> String {
+    let mut out = String::with_capacity(s.len() + 2);
+    out.push('"');
+    for c in s.chars() {
+        match c {
+            '"' => out.push_str("\\\""),
+            '\\' => out.push_str("\\\\"),
+            '\n' => out.push_str("\\n"),
+            '\r' => out.push_str("\\r"),
+            '\t' => out.push_str("\\t"),
+            c if (c as u32) < 0x20 => out.push_str(&format!("\\u{:04x}", c as u32)),
+            c => out.push(c),
+        }
+    }
+    out.push('"');
+    out
+}
+
 async fn serve_leases<IB: Body>(
     _req: Request<IB>,
     dhcp: &std::sync::Arc<crate::dhcp::DhcpService>,
@@ -139,7 +158,7 @@ async fn serve_leases<IB: Body>(
                 crate::dhcp::dhcppkt::parse_options(crate::pktparser::Buffer::new(&li.options))
                     .ok()
                     .and_then(|o| o.get_hostname())
-                    .map(|h| format!(", \"host-name\": {:?}", h))
+                    .map(|h| format!(", \"host-name\": {}", json_string(&h)))
                     .or_else(|| Some("".to_string()))
                     .unwrap(),
             ))
